@@ -541,4 +541,984 @@ theorem cooDense_scatterSpec (sym : Symmetry) :
     (rw [Bool.eq_iff_iff]; simp only [decide_eq_true_eq, Bool.not_eq_true', decide_eq_false_iff_not]; omega)
 
 
+/-! ### Conversions to dense -/
+
+
+theorem expandOuter_length : ∀ (outer : List Int) (c : Nat) (a last : Int), outer.head? = some a →
+    outer.getLast? = some last → monotone outer = true →
+    (expandOuter c outer).length = (last - a).toNat := by
+  intro outer
+  induction outer with
+  | nil => intro c a last h; cases h
+  | cons x xs ih =>
+    intro c a last hh hl hm
+    simp only [List.head?_cons, Option.some.injEq] at hh
+    subst hh
+    cases xs with
+    | nil =>
+      simp only [List.getLast?_singleton, Option.some.injEq] at hl
+      subst hl
+      simp [expandOuter]
+    | cons y ys =>
+      obtain ⟨hxy, hm'⟩ := monotone_cons.mp hm
+      have hl' : (y :: ys).getLast? = some last := by simpa [List.getLast?_cons_cons] using hl
+      have hyl := monotone_head_le_last (y :: ys) y last rfl hl' hm'
+      have := ih (c + 1) y last rfl hl' hm'
+      simp only [expandOuter, List.length_append, List.length_replicate, this]
+      omega
+
+theorem outerWF_iff {cols : Nat} {outer : List Int} {nnz : Nat} :
+    outerWF cols outer nnz = true ↔
+      outer.length = cols + 1 ∧ outer.head? = some 0 ∧ outer.getLast? = some (nnz : Int) ∧
+        monotone outer = true := by
+  simp [outerWF, and_assoc]
+
+theorem cscWalk_of_spec {s : CSC} {es : List (Int × Int)} (h : cscEntriesSpec s = some es) :
+    cscWalk s = some es ∧ es.length = s.inner.length := by
+  unfold cscEntriesSpec at h
+  split at h
+  · rename_i hwf
+    obtain ⟨h1, h2, h3, h4⟩ := outerWF_iff.mp hwf
+    simp only [Option.some.injEq] at h
+    subst h
+    have hlen := expandOuter_length s.outer 0 0 _ h2 h3 h4
+    constructor
+    · unfold cscWalk
+      rw [if_neg (by simpa using h1)]
+      rw [cscColumns_eq s.outer 0 0 _ h2 h3 (le_refl _) h4 (le_refl _)]
+      simp [seg]
+    · rw [List.length_zip, hlen]; simp
+  · cases h
+
+theorem cooWalk_of_spec {s : COO} {es : List (Int × Int)} (h : cooEntriesSpec s = some es) :
+    cooWalk s = some es := by
+  unfold cooEntriesSpec at h
+  split at h
+  · rename_i hl
+    simp only [Option.some.injEq] at h
+    subst h
+    unfold cooWalk
+    rw [if_neg (by simpa using hl)]
+    simp [Gen.C14.cooDenseRow, Gen.C14.cooDenseCol]
+  · cases h
+
+theorem rejectsShape_false {sym : Symmetry} {rows cols : Nat} (h : sym ≠ .unsym → rows = cols) :
+    (sym.code != (0 : Int) && ((rows : Int) != (cols : Int))) = false := by
+  cases sym
+  · simp [Symmetry.code]
+  all_goals (have := h (by simp); subst this; simp)
+
+theorem rejectsShape_true {sym : Symmetry} {rows cols : Nat} (h1 : sym ≠ .unsym) (h2 : rows ≠ cols) :
+    (sym.code != (0 : Int) && ((rows : Int) != (cols : Int))) = true := by
+  have : (rows : Int) ≠ (cols : Int) := by exact_mod_cast h2
+  cases sym
+  · exact absurd rfl h1
+  all_goals simp [Symmetry.code, this]
+
+/-- CSC → Dense on a valid pattern: succeeds, and the dense buffer holds the denoted matrix in
+    every cell (mirrored cells included). -/
+theorem cscToDense_correct (z : β) (s : CSC) (v : List β) {es : List (Int × Int)}
+    (hes : cscEntriesSpec s = some es) (hv : ValidEntries s.rows s.cols s.sym es) :
+    cscToDense z s = .ok { out := .dense { rows := s.rows, cols := s.cols, sym := s.sym },
+                           vals := cscDenseVals z s } ∧
+    ∃ v', cscDenseVals z s v = .ok v' ∧ v'.length = s.rows * s.cols ∧
+      denseRaw z s.rows s.cols v' = lookupMat z s.rows s.cols s.sym es v ∧
+      denseMat z { rows := s.rows, cols := s.cols, sym := s.sym } v' =
+        some (lookupMat z s.rows s.cols s.sym es v) := by
+  obtain ⟨hwalk, hlen⟩ := cscWalk_of_spec hes
+  obtain ⟨T', hT', hl, hget⟩ := scatter_correct (cscDense_scatterSpec s.sym) hv.square es hv.inb hv.tri
+    hv.nodup v z
+  obtain ⟨hraw, hden⟩ := dense_of_lookup (z := z) (es := es) (v := v) (T := T') hv.square hget
+  refine ⟨?_, T', ?_, hl, hraw, hden⟩
+  · unfold cscToDense
+    rw [Gen.C14.cscDenseRejectsShape, rejectsShape_false hv.square]
+    rfl
+  · simp only [cscDenseVals, hwalk, hlen, Nat.lt_irrefl, gt_iff_lt, if_false, hT']
+
+/-- COO → Dense on a valid pattern. -/
+theorem cooToDense_correct (z : β) (s : COO) (v : List β) {es : List (Int × Int)}
+    (hes : cooEntriesSpec s = some es) (hv : ValidEntries s.rows s.cols s.sym es) :
+    cooToDense z s = .ok { out := .dense { rows := s.rows, cols := s.cols, sym := s.sym },
+                           vals := cooDenseVals z s } ∧
+    ∃ v', cooDenseVals z s v = .ok v' ∧ v'.length = s.rows * s.cols ∧
+      denseRaw z s.rows s.cols v' = lookupMat z s.rows s.cols s.sym es v ∧
+      denseMat z { rows := s.rows, cols := s.cols, sym := s.sym } v' =
+        some (lookupMat z s.rows s.cols s.sym es v) := by
+  have hwalk := cooWalk_of_spec hes
+  obtain ⟨T', hT', hl, hget⟩ := scatter_correct (cooDense_scatterSpec s.sym) hv.square es hv.inb hv.tri
+    hv.nodup v z
+  obtain ⟨hraw, hden⟩ := dense_of_lookup (z := z) (es := es) (v := v) (T := T') hv.square hget
+  refine ⟨?_, T', ?_, hl, hraw, hden⟩
+  · unfold cooToDense
+    rw [Gen.C14.cooDenseRejectsShape, rejectsShape_false hv.square]
+    rfl
+  · simp only [cooDenseVals, hwalk, hT']
+
+/-- Cells written for an in-range entry of a (square when symmetric) matrix are in range. -/
+theorem writes_inBounds {sym : Symmetry} {throws writes} (hs : ScatterSpec sym throws writes)
+    {rows cols : Nat} (hsq : sym ≠ .unsym → rows = cols) {e : Int × Int}
+    (hb : inBounds rows cols e = true) : ∀ w ∈ writes e.1 e.2, inBounds rows cols w = true := by
+  intro w hw
+  rw [hs.writes_eq] at hw
+  by_cases hu : sym = .unsym
+  · simp only [hu, if_true, List.mem_singleton] at hw
+    rw [hw]; exact hb
+  · simp only [hu, if_false, List.mem_cons, List.not_mem_nil, or_false] at hw
+    have := hsq hu; subst this
+    rcases hw with hw | hw
+    · rw [hw]; exact hb
+    · rw [hw]; exact inBounds_swap hb
+
+/-- The scatter loop throws `invalid_argument` on an entry in the wrong triangle. -/
+theorem scatter_rejects_triangle {sym : Symmetry} {throws writes} (hs : ScatterSpec sym throws writes)
+    {rows cols : Nat} (hsq : sym ≠ .unsym → rows = cols) (es : List (Int × Int))
+    (hb : ∀ e ∈ es, inBounds rows cols e = true) (hbad : ∃ e ∈ es, triangleOk sym e = false)
+    (work : List β) (z : β) (l : Nat) (T : List β) :
+    scatterGo throws writes rows cols work z es l T = .error .invalidArgument := by
+  apply scatterGo_throws
+  · intro e he; exact writes_inBounds hs hsq (hb e he)
+  · obtain ⟨e, he, ht⟩ := hbad
+    exact ⟨e, he, by rw [hs.throws_eq]; simp [ht]⟩
+
+/-- If the scatter loop completes, every entry was in range and in the stored triangle. -/
+theorem scatter_ok_valid {sym : Symmetry} {throws writes} (hs : ScatterSpec sym throws writes)
+    {rows cols : Nat} {es : List (Int × Int)} {work : List β} {z : β} {l : Nat} {T T' : List β}
+    (h : scatterGo throws writes rows cols work z es l T = .ok T') :
+    (∀ e ∈ es, inBounds rows cols e = true) ∧ (∀ e ∈ es, triangleOk sym e = true) := by
+  obtain ⟨_, hall, _⟩ := scatterGo_spec z _ _ _ _ h
+  constructor
+  · intro e he
+    have := (hall e he).2 e (by rw [hs.writes_eq]; split <;> simp)
+    exact this
+  · intro e he
+    have := (hall e he).1
+    rw [hs.throws_eq] at this
+    simpa using this
+
+
+/-! ### Index-generation loops of the conversions from dense -/
+
+
+theorem takeWhile_range {p : Nat → Bool} {n m : Nat} (hmn : m ≤ n) (hp : ∀ r, r < m → p r = true)
+    (hq : m < n → p m = false) : (List.range n).takeWhile p = List.range m := by
+  obtain ⟨k, rfl⟩ := Nat.exists_eq_add_of_le hmn
+  rw [List.range_add, List.takeWhile_append_of_pos (by intro a ha; exact hp a (List.mem_range.mp ha))]
+  cases k with
+  | zero => simp
+  | succ k =>
+    have : p m = false := hq (by omega)
+    rw [List.range_succ_eq_map]
+    simp [this]
+
+/-- Per-column entry lists with `h c` leading rows in column `c`. -/
+def colList (h : Nat → Nat) (cols : Nat) : List (List (Nat × Nat)) :=
+  (List.range cols).map fun c => (List.range (h c)).map fun r => (r, c)
+
+theorem loopColumns_eq {cond : Int → Int → Bool} {rows cols : Nat} {h : Nat → Nat}
+    (hle : ∀ c, c < cols → h c ≤ rows)
+    (hp : ∀ c r, c < cols → r < h c → cond (r : Int) (c : Int) = true)
+    (hq : ∀ c, c < cols → h c < rows → cond ((h c : Nat) : Int) (c : Int) = false) :
+    loopColumns cond rows cols = colList h cols := by
+  unfold loopColumns colList
+  apply List.map_congr_left
+  intro c hc
+  have hc' := List.mem_range.mp hc
+  rw [takeWhile_range (hle c hc') (fun r hr => hp c r hc' hr) (fun hlt => hq c hc' hlt)]
+
+theorem mem_colList_flatten {h : Nat → Nat} {cols : Nat} {p : Nat × Nat} :
+    p ∈ (colList h cols).flatten ↔ p.2 < cols ∧ p.1 < h p.2 := by
+  obtain ⟨r, c⟩ := p
+  simp only [colList, List.mem_flatten, List.mem_map, List.mem_range]
+  constructor
+  · rintro ⟨l, ⟨c', hc', rfl⟩, hm⟩
+    simp only [List.mem_map, List.mem_range, Prod.mk.injEq] at hm
+    obtain ⟨r', hr', rfl, rfl⟩ := hm
+    exact ⟨hc', hr'⟩
+  · rintro ⟨hc, hr⟩
+    exact ⟨_, ⟨c, hc, rfl⟩, List.mem_map.mpr ⟨r, List.mem_range.mpr hr, rfl⟩⟩
+
+/-- Column-then-row order, strict. -/
+def colRowLT (a b : Nat × Nat) : Prop := a.2 < b.2 ∨ (a.2 = b.2 ∧ a.1 < b.1)
+
+theorem colList_sorted (h : Nat → Nat) (cols : Nat) :
+    (colList h cols).flatten.Pairwise colRowLT := by
+  rw [List.pairwise_flatten]
+  constructor
+  · intro l hl
+    simp only [colList, List.mem_map, List.mem_range] at hl
+    obtain ⟨c, _, rfl⟩ := hl
+    rw [List.pairwise_map]
+    exact List.Pairwise.imp (fun {a b} hab => Or.inr ⟨rfl, hab⟩) List.pairwise_lt_range
+  · unfold colList
+    rw [List.pairwise_map]
+    refine List.Pairwise.imp ?_ List.pairwise_lt_range
+    intro c1 c2 hlt x hx y hy
+    simp only [List.mem_map, List.mem_range] at hx hy
+    obtain ⟨_, _, rfl⟩ := hx
+    obtain ⟨_, _, rfl⟩ := hy
+    exact Or.inl hlt
+
+theorem colList_nodup (h : Nat → Nat) (cols : Nat) : (colList h cols).flatten.Nodup := by
+  refine List.Pairwise.imp ?_ (colList_sorted h cols)
+  intro a b hab heq
+  subst heq
+  rcases hab with h1 | ⟨_, h2⟩ <;> omega
+
+theorem colList_lengths (h : Nat → Nat) (cols : Nat) :
+    (colList h cols).map List.length = (List.range cols).map h := by
+  simp [colList]
+
+
+theorem colList_succ (h : Nat → Nat) (cols : Nat) :
+    colList h (cols + 1) = colList h cols ++ [(List.range (h cols)).map fun r => (r, cols)] := by
+  simp [colList, List.range_succ]
+
+theorem colMajor_index (rows cols : Nat) :
+    ((colList (fun _ => rows) cols).flatten.map fun p => p.1 + p.2 * rows) = List.range (rows * cols) := by
+  induction cols with
+  | zero => simp [colList]
+  | succ n ih =>
+    rw [colList_succ, List.flatten_append, List.map_append, ih]
+    have : rows * (n + 1) = rows * n + rows := by ring
+    rw [this, List.range_add]
+    congr 1
+    simp only [List.flatten_cons, List.flatten_nil, List.append_nil, List.map_map]
+    apply List.map_congr_left
+    intro r _
+    simp only [Function.comp]
+    rw [Nat.mul_comm n rows]; omega
+
+theorem colMajor_pos {rows cols l : Nat} {p : Nat × Nat}
+    (h : (colList (fun _ => rows) cols).flatten[l]? = some p) : p.1 + p.2 * rows = l := by
+  have h1 : ((colList (fun _ => rows) cols).flatten.map fun p => p.1 + p.2 * rows)[l]? =
+      some (p.1 + p.2 * rows) := by rw [List.getElem?_map, h]; rfl
+  rw [colMajor_index] at h1
+  have hl : l < rows * cols := by
+    by_contra hc
+    rw [List.getElem?_eq_none (by simpa using hc)] at h1
+    cases h1
+  rw [List.getElem?_range hl] at h1
+  exact (Option.some.inj h1).symm
+
+/-- Natural-number index pairs as (zero-based) entries. -/
+def castP (p : Nat × Nat) : Int × Int := ((p.1 : Int), (p.2 : Int))
+
+theorem castP_inj {a b : Nat × Nat} (h : castP a = castP b) : a = b := by
+  obtain ⟨a1, a2⟩ := a; obtain ⟨b1, b2⟩ := b
+  simp only [castP, Prod.mk.injEq] at h
+  obtain ⟨h1, h2⟩ := h
+  have e1 : a1 = b1 := by exact_mod_cast h1
+  have e2 : a2 = b2 := by exact_mod_cast h2
+  rw [e1, e2]
+
+theorem nodup_map_castP {ps : List (Nat × Nat)} (h : ps.Nodup) : (ps.map castP).Nodup := by
+  unfold List.Nodup
+  rw [List.pairwise_map]
+  exact List.Pairwise.imp (fun {a b} hab heq => hab (castP_inj heq)) h
+
+/-- Looking up a cell that a listed index pair supplies returns the value gathered for that pair. -/
+theorem lookup_of_mem {z : β} {sym : Symmetry} {ps : List (Nat × Nat)} {v v' : List β} {rows : Nat}
+    (hv' : ∀ l p, ps[l]? = some p → v'.getD l z = v.getD (p.1 + p.2 * rows) z)
+    (hn : ps.Nodup) (ht : ∀ e ∈ ps.map castP, triangleOk sym e = true)
+    {p : Nat × Nat} {i j : Nat} (hp : p ∈ ps) (hh : hits sym i j (castP p) = true) :
+    lookup z sym (ps.map castP) v' i j = v.getD (p.1 + p.2 * rows) z := by
+  obtain ⟨l, hl⟩ := List.mem_iff_getElem?.mp hp
+  have hl' : (ps.map castP)[l]? = some (castP p) := by rw [List.getElem?_map, hl]; rfl
+  unfold lookup
+  rw [findIdx_hits_of_getElem (nodup_map_castP hn) ht hl' hh]
+  exact hv' l p hl
+
+theorem hits_castP_self (sym : Symmetry) (i j : Nat) : hits sym i j (castP (i, j)) = true := by
+  simp [hits, castP]
+
+theorem hits_castP_swap {sym : Symmetry} (hs : sym ≠ .unsym) (i j : Nat) :
+    hits sym i j (castP (j, i)) = true := by
+  cases sym
+  · exact absurd rfl hs
+  all_goals simp [hits, castP]
+
+/-- The entries generated from a dense pattern, with the gathered values, denote the dense matrix. -/
+theorem fromDense_denote (z : β) (d : Dense) (hlow : d.sym ≠ .lower) (hsq : d.sym ≠ .unsym → d.rows = d.cols)
+    (v v' : List β)
+    (hv' : ∀ l p, ((colList (fun c => if d.sym = .unsym then d.rows else c + 1) d.cols).flatten)[l]? = some p →
+      v'.getD l z = v.getD (p.1 + p.2 * d.rows) z) :
+    sparseMat z d.rows d.cols d.sym
+      (((colList (fun c => if d.sym = .unsym then d.rows else c + 1) d.cols).flatten).map castP) v' =
+      denseMat z d v := by
+  obtain ⟨rows, cols, sym⟩ := d
+  simp only at hlow hsq hv' ⊢
+  generalize hps : (colList (fun c => if sym = .unsym then rows else c + 1) cols).flatten = ps at hv' ⊢
+  have hmem : ∀ p : Nat × Nat, p ∈ ps ↔ p.2 < cols ∧ p.1 < (if sym = .unsym then rows else p.2 + 1) := by
+    intro p; rw [← hps]; exact mem_colList_flatten
+  have hn : ps.Nodup := by rw [← hps]; exact colList_nodup _ _
+  have htri : ∀ e ∈ ps.map castP, triangleOk sym e = true := by
+    intro e he
+    obtain ⟨p, hp, rfl⟩ := List.mem_map.mp he
+    have := (hmem p).mp hp
+    cases sym
+    · rfl
+    · simp only [reduceCtorEq, if_false] at this
+      simp only [triangleOk, castP, decide_eq_true_eq, Nat.cast_le]; omega
+    · exact absurd rfl hlow
+  have hval : ValidEntries rows cols sym (ps.map castP) := by
+    refine ⟨hsq, ?_, htri, nodup_map_castP hn⟩
+    intro e he
+    obtain ⟨p, hp, rfl⟩ := List.mem_map.mp he
+    have := (hmem p).mp hp
+    rw [inBounds_iff]; simp only [castP]
+    by_cases hu : sym = .unsym
+    · simp only [hu, if_true] at this; omega
+    · simp only [hu, if_false] at this
+      have := hsq hu; omega
+  rw [(sparseMat_eq_some).mpr ⟨hval, rfl⟩]
+  unfold denseMat
+  have n1 : ¬ (sym ≠ .unsym ∧ rows ≠ cols) := fun ⟨a, b⟩ => b (hsq a)
+  simp only [n1, if_false, Option.some.injEq]
+  refine Mat.ext' (A := lookupMat z rows cols sym (ps.map castP) v') rfl rfl ?_
+  intro i j
+  simp only [lookupMat]
+  split
+  · rename_i hij
+    obtain ⟨hi, hj⟩ := hij
+    cases sym with
+    | unsym =>
+      have hp : (i, j) ∈ ps := (hmem (i, j)).mpr ⟨hj, by simpa using hi⟩
+      exact lookup_of_mem hv' hn htri hp (hits_castP_self _ i j)
+    | upper =>
+      have := hsq (by simp); subst this
+      simp only
+      rcases Nat.le_total i j with hle | hle
+      · rw [Nat.min_eq_left hle, Nat.max_eq_right hle]
+        have hp : (i, j) ∈ ps := (hmem (i, j)).mpr ⟨hj, by simp; omega⟩
+        exact lookup_of_mem hv' hn htri hp (hits_castP_self _ i j)
+      · rw [Nat.min_eq_right hle, Nat.max_eq_left hle]
+        have hp : (j, i) ∈ ps := (hmem (j, i)).mpr ⟨hi, by simp; omega⟩
+        exact lookup_of_mem hv' hn htri hp (hits_castP_swap (by simp) i j)
+    | lower => exact absurd rfl hlow
+  · rfl
+
+
+theorem sum_const_range (rows cols : Nat) : ((List.range cols).map fun _ => rows).sum = rows * cols := by
+  induction cols with
+  | zero => simp
+  | succ n ih => rw [List.range_succ, List.map_append, List.sum_append, ih]; simp; ring
+
+theorem sum_succ_range (n : Nat) : ((List.range n).map fun c => c + 1).sum * 2 = n * (n + 1) := by
+  induction n with
+  | zero => simp
+  | succ n ih =>
+    rw [List.range_succ, List.map_append, List.sum_append, Nat.add_mul, ih]; simp; ring
+
+theorem colList_flatten_length (h : Nat → Nat) (cols : Nat) :
+    (colList h cols).flatten.length = ((List.range cols).map h).sum := by
+  rw [List.length_flatten, colList_lengths]
+
+/-- Rows generated per column by the (regenerated) inner-loop condition. -/
+def triH (sym : Symmetry) (rows : Nat) (c : Nat) : Nat := if sym = .unsym then rows else c + 1
+
+theorem triH_length_unsym (rows cols : Nat) :
+    ((colList (triH .unsym rows) cols).flatten.length : Int) = (rows : Int) * (cols : Int) := by
+  rw [colList_flatten_length]
+  have : (List.range cols).map (triH .unsym rows) = (List.range cols).map fun _ => rows := by
+    apply List.map_congr_left; intro c _; simp [triH]
+  rw [this, sum_const_range]; push_cast; ring
+
+theorem triH_length_upper (n : Nat) :
+    ((colList (triH .upper n) n).flatten.length : Int) = ((n : Int) * ((n : Int) + 1)) / 2 := by
+  rw [colList_flatten_length]
+  have : (List.range n).map (triH .upper n) = (List.range n).map fun c => c + 1 := by
+    apply List.map_congr_left; intro c _; simp [triH]
+  rw [this]
+  have h := sum_succ_range n
+  generalize ((List.range n).map fun c => c + 1).sum = S at h ⊢
+  have h' : (S : Int) * 2 = (n : Int) * ((n : Int) + 1) := by exact_mod_cast h
+  omega
+
+
+/-! ### The regenerated loop conditions / formulas of the converters from dense -/
+
+
+theorem triH_le {sym : Symmetry} {rows cols : Nat} (hsq : sym ≠ .unsym → rows = cols) {c : Nat}
+    (hc : c < cols) : triH sym rows c ≤ rows := by
+  unfold triH
+  split
+  · exact le_refl _
+  · rename_i hu; have := hsq hu; omega
+
+theorem denseCoo_loop (d : Dense) (hlow : d.sym ≠ .lower) (hsq : d.sym ≠ .unsym → d.rows = d.cols) :
+    loopColumns (Gen.C14.denseCooRowCond d.sym.code d.rows d.cols) d.rows d.cols =
+      colList (triH d.sym d.rows) d.cols := by
+  obtain ⟨rows, cols, sym⟩ := d
+  simp only at hlow hsq ⊢
+  apply loopColumns_eq (fun c hc => triH_le hsq hc)
+  · intro c r hc hr
+    cases sym
+    · simp only [triH, if_true] at hr
+      simp [Gen.C14.denseCooRowCond, Symmetry.code, hr]
+    · simp only [triH, reduceCtorEq, if_false] at hr
+      simp [Gen.C14.denseCooRowCond, Symmetry.code]; omega
+    · exact absurd rfl hlow
+  · intro c hc hlt
+    cases sym
+    · simp [triH] at hlt
+    · simp [Gen.C14.denseCooRowCond, Symmetry.code, triH]
+    · exact absurd rfl hlow
+
+theorem denseCsc_loop (d : Dense) (hlow : d.sym ≠ .lower) (hsq : d.sym ≠ .unsym → d.rows = d.cols) :
+    loopColumns (Gen.C14.denseCscRowCond d.sym.code d.rows d.cols) d.rows d.cols =
+      colList (triH d.sym d.rows) d.cols := by
+  obtain ⟨rows, cols, sym⟩ := d
+  simp only at hlow hsq ⊢
+  apply loopColumns_eq (fun c hc => triH_le hsq hc)
+  · intro c r hc hr
+    cases sym
+    · simp only [triH, if_true] at hr
+      simp [Gen.C14.denseCscRowCond, Symmetry.code, hr]
+    · simp only [triH, reduceCtorEq, if_false] at hr
+      simp [Gen.C14.denseCscRowCond, Symmetry.code]; omega
+    · exact absurd rfl hlow
+  · intro c hc hlt
+    cases sym
+    · simp [triH] at hlt
+    · simp [Gen.C14.denseCscRowCond, Symmetry.code, triH]
+    · exact absurd rfl hlow
+
+theorem triH_nnz (d : Dense) (hlow : d.sym ≠ .lower) (hsq : d.sym ≠ .unsym → d.rows = d.cols) :
+    ((colList (triH d.sym d.rows) d.cols).flatten.length : Int) =
+      (if d.sym.code == 0 then (d.rows : Int) * (d.cols : Int)
+       else if d.sym.code == 1 then ((d.rows : Int) * ((d.rows : Int) + 1)) / 2 else 0) := by
+  obtain ⟨rows, cols, sym⟩ := d
+  simp only at hlow hsq ⊢
+  cases sym
+  · simpa [Symmetry.code] using triH_length_unsym rows cols
+  · have := hsq (by simp); subst this
+    simpa [Symmetry.code] using triH_length_upper rows
+  · exact absurd rfl hlow
+
+theorem denseRejects_false (d : Dense) (hlow : d.sym ≠ .lower) (hsq : d.sym ≠ .unsym → d.rows = d.cols) :
+    Gen.C14.denseCooRejects d.sym.code d.rows d.cols = false ∧
+    Gen.C14.denseCscRejects d.sym.code d.rows d.cols = false := by
+  obtain ⟨rows, cols, sym⟩ := d
+  simp only at hlow hsq ⊢
+  cases sym
+  · simp [Gen.C14.denseCooRejects, Gen.C14.denseCscRejects, Symmetry.code]
+  · have := hsq (by simp); subst this
+    simp [Gen.C14.denseCooRejects, Gen.C14.denseCscRejects, Symmetry.code]
+  · exact absurd rfl hlow
+
+theorem denseRejects_true (d : Dense) (h : d.sym = .lower ∨ (d.sym = .upper ∧ d.rows ≠ d.cols)) :
+    Gen.C14.denseCooRejects d.sym.code d.rows d.cols = true ∧
+    Gen.C14.denseCscRejects d.sym.code d.rows d.cols = true := by
+  obtain ⟨rows, cols, sym⟩ := d
+  simp only at h ⊢
+  rcases h with rfl | ⟨rfl, hne⟩
+  · simp [Gen.C14.denseCooRejects, Gen.C14.denseCscRejects, Symmetry.code]
+  · have : (rows : Int) ≠ (cols : Int) := by exact_mod_cast hne
+    simp [Gen.C14.denseCooRejects, Gen.C14.denseCscRejects, Symmetry.code, this]
+
+/-- `convert_values` of the converters from dense gathers, for every generated index pair
+    `(r, c)`, the dense element `r + c * rows`. -/
+theorem denseValues_gather (z : β) (d : Dense) (hlow : d.sym ≠ .lower)
+    (hsq : d.sym ≠ .unsym → d.rows = d.cols) (copy tri : Int → Bool) (top adv : Int → Int)
+    (hcopy : copy d.sym.code = decide (d.sym = .unsym)) (htri : tri d.sym.code = decide (d.sym = .upper))
+    (htop : ∀ c, top c = c + 1) (hadv : ∀ c, adv c = c + 1) (n : Nat) (v : List β) :
+    ∃ v', denseValues z (copy d.sym.code) (tri d.sym.code) top adv d.rows d.cols n v = .ok v' ∧
+      ∀ l p, ((colList (triH d.sym d.rows) d.cols).flatten)[l]? = some p →
+        v'.getD l z = v.getD (p.1 + p.2 * d.rows) z := by
+  obtain ⟨rows, cols, sym⟩ := d
+  simp only at hlow hsq hcopy htri ⊢
+  cases sym
+  · refine ⟨v, by simp [denseValues, hcopy], ?_⟩
+    intro l p hl
+    have : triH .unsym rows = fun _ => rows := by funext c; simp [triH]
+    rw [this] at hl
+    rw [colMajor_pos hl]
+  · have := hsq (by simp); subst this
+    refine ⟨((colList (triH .upper rows) rows).flatten).map fun p => v.getD (p.1 + p.2 * rows) z, ?_, ?_⟩
+    · have hall : ((List.range rows).all fun (c : Nat) =>
+          top (c : Int) == adv (c : Int) && decide (0 ≤ top (c : Int)) &&
+            decide (top (c : Int) ≤ (rows : Int))) = true := by
+        rw [List.all_eq_true]
+        intro c hc
+        have := List.mem_range.mp hc
+        simp only [htop, hadv, Bool.and_eq_true, beq_self_eq_true, decide_eq_true_eq, true_and]
+        omega
+      simp only [denseValues, hcopy, htri, hall, reduceCtorEq, decide_false, decide_true, if_true,
+        Bool.false_eq_true, if_false]
+      congr 1
+      simp only [colList, triH, reduceCtorEq, if_false, List.flatMap_def, List.map_flatten, List.map_map]
+      congr 1
+      apply List.map_congr_left
+      intro c _
+      simp only [Function.comp, htop]
+      have : ((c : Int) + 1).toNat = c + 1 := by omega
+      rw [this, List.map_map]
+      rfl
+    · intro l p hl
+      rw [List.getD_eq_getElem?_getD, List.getElem?_map, hl]
+      rfl
+  · exact absurd rfl hlow
+
+
+/-! ### Outer pointers generated by Dense → CSC -/
+
+
+theorem prefixCounts_head (l : Int) (ns : List Nat) : ∃ t, prefixCounts l ns = l :: t := by
+  cases ns with
+  | nil => exact ⟨[], rfl⟩
+  | cons n ns => exact ⟨_, rfl⟩
+
+theorem prefixCounts_length (l : Int) (ns : List Nat) : (prefixCounts l ns).length = ns.length + 1 := by
+  induction ns generalizing l with
+  | nil => rfl
+  | cons n ns ih => simp [prefixCounts, ih]
+
+theorem prefixCounts_last (l : Int) (ns : List Nat) :
+    (prefixCounts l ns).getLast? = some (l + (ns.sum : Int)) := by
+  induction ns generalizing l with
+  | nil => simp [prefixCounts]
+  | cons n ns ih =>
+    obtain ⟨t, ht⟩ := prefixCounts_head (l + n) ns
+    have := ih (l + n)
+    rw [ht] at this
+    simp only [prefixCounts, ht, List.getLast?_cons_cons, this, List.sum_cons]
+    push_cast; congr 1; ring
+
+theorem prefixCounts_monotone (l : Int) (ns : List Nat) : monotone (prefixCounts l ns) = true := by
+  induction ns generalizing l with
+  | nil => rfl
+  | cons n ns ih =>
+    obtain ⟨t, ht⟩ := prefixCounts_head (l + n) ns
+    have := ih (l + n)
+    rw [ht] at this
+    simp only [prefixCounts, ht]
+    rw [monotone_cons]
+    exact ⟨by omega, this⟩
+
+theorem zip_replicate_col {col : List (Nat × Nat)} {c : Nat} (h : ∀ p ∈ col, p.2 = c) :
+    (col.map fun p => (p.1 : Int)).zip (List.replicate col.length (c : Int)) = col.map castP := by
+  induction col with
+  | nil => rfl
+  | cons p ps ih =>
+    have hp := h p (List.mem_cons_self ..)
+    simp only [List.map_cons, List.length_cons, List.replicate_succ, List.zip_cons_cons]
+    rw [ih (fun q hq => h q (List.mem_cons_of_mem _ hq))]
+    simp [castP, hp]
+
+/-- Row indices paired with the column index recovered from the running counts give back the
+    generated index pairs. -/
+theorem zip_expand_prefixCounts :
+    ∀ (colsL : List (List (Nat × Nat))) (c : Nat) (l : Int),
+      (∀ k col, colsL[k]? = some col → ∀ p ∈ col, p.2 = c + k) →
+      (colsL.flatten.map fun p => (p.1 : Int)).zip
+        (expandOuter c (prefixCounts l (colsL.map List.length))) = colsL.flatten.map castP := by
+  intro colsL
+  induction colsL with
+  | nil => intro c l _; simp [prefixCounts, expandOuter]
+  | cons col rest ih =>
+    intro c l h
+    obtain ⟨t, ht⟩ := prefixCounts_head (l + (col.length : Int)) (rest.map List.length)
+    have hrec := ih (c + 1) (l + (col.length : Int)) (by
+      intro k col' hk p hp
+      have := h (k + 1) col' (by simpa using hk) p hp
+      omega)
+    rw [ht] at hrec
+    simp only [List.map_cons, prefixCounts, ht, expandOuter, List.flatten_cons, List.map_append]
+    have hlen : (l + (col.length : Int) - l).toNat = col.length := by omega
+    rw [hlen, List.zip_append (by simp), hrec]
+    congr 1
+    exact zip_replicate_col (fun p hp => by simpa using h 0 col (by simp) p hp)
+
+theorem colList_col {h : Nat → Nat} {cols k : Nat} {col : List (Nat × Nat)}
+    (hk : (colList h cols)[k]? = some col) : ∀ p ∈ col, p.2 = 0 + k := by
+  unfold colList at hk
+  rw [List.getElem?_map] at hk
+  cases hr : (List.range cols)[k]? with
+  | none => rw [hr] at hk; cases hk
+  | some c =>
+    rw [hr] at hk
+    simp only [Option.map_some, Option.some.injEq] at hk
+    have hlt : k < cols := by
+      by_contra hc
+      rw [List.getElem?_eq_none (by simpa using hc)] at hr; cases hr
+    rw [List.getElem?_range hlt] at hr
+    cases hr
+    subst hk
+    intro p hp
+    simp only [List.mem_map, List.mem_range] at hp
+    obtain ⟨r, _, rfl⟩ := hp
+    simp
+
+
+
+
+/-! ### Order tags -/
+
+/-- Column-then-row order on zero-based entries `(row, col)`. -/
+def colRowLE (a b : Int × Int) : Prop := a.2 < b.2 ∨ (a.2 = b.2 ∧ a.1 ≤ b.1)
+/-- Row-then-column order. -/
+def rowColLE (a b : Int × Int) : Prop := a.1 < b.1 ∨ (a.1 = b.1 ∧ a.2 ≤ b.2)
+
+/-- What a `SparseCOO::Order` tag promises about the entry sequence. -/
+def CooSorted : CooOrder → List (Int × Int) → Prop
+  | .unsorted, _ => True
+  | .colsAndRows, es => es.Pairwise colRowLE
+  | .colsOnly, es => es.Pairwise fun a b => a.2 ≤ b.2
+  | .rowsAndCols, es => es.Pairwise rowColLE
+  | .rowsOnly, es => es.Pairwise fun a b => a.1 ≤ b.1
+
+/-- What a `SparseCSC::Order` tag promises: rows ascending inside every column. -/
+def CscSorted : CscOrder → List (Int × Int) → Prop
+  | .unsorted, _ => True
+  | .sortedRows, es => es.Pairwise fun a b => a.2 = b.2 → a.1 ≤ b.1
+
+/-- The order tag of a representation is truthful. -/
+def OrderTruthful : Sparsity → Prop
+  | .dense _ => True
+  | .csc s => ∀ es, cscEntriesSpec s = some es → CscSorted s.order es
+  | .coo s => ∀ es, cooEntriesSpec s = some es → CooSorted s.order es
+
+theorem castP_sorted {ps : List (Nat × Nat)} (h : ps.Pairwise colRowLT) :
+    (ps.map castP).Pairwise colRowLE ∧ (ps.map castP).Pairwise (fun a b => a.2 = b.2 → a.1 ≤ b.1) := by
+  constructor <;> rw [List.pairwise_map] <;> refine List.Pairwise.imp ?_ h <;> intro a b hab
+  · rcases hab with h1 | ⟨h1, h2⟩
+    · left; simp only [castP]; omega
+    · right; simp only [castP]; omega
+  · intro _
+    rcases hab with h1 | ⟨h1, h2⟩
+    · simp only [castP] at *; omega
+    · simp only [castP]; omega
+
+/-! ### Dense → COO -/
+
+theorem zip_shift (es : List (Int × Int)) (f g : Int → Int → Int) (fi : Int)
+    (hf : ∀ r c, f r c - fi = r) (hg : ∀ r c, g r c - fi = c) :
+    ((es.map fun e => f e.1 e.2).map (· - fi)).zip ((es.map fun e => g e.1 e.2).map (· - fi)) = es := by
+  rw [List.map_map, List.map_map, List.zip_map']
+  conv_rhs => rw [← List.map_id es]
+  apply List.map_congr_left
+  intro e _
+  simp [hf, hg]
+
+theorem denseToCoo_correct (z : β) (d : Dense) (ity : IdxTy) (req : Request) (v : List β)
+    (hlow : d.sym ≠ .lower) (hsq : d.sym ≠ .unsym → d.rows = d.cols) :
+    ∃ (s' : COO) (f : List β → Except Err (List β)) (v' : List β),
+      denseToCoo z d ity req = .ok { out := .coo s', vals := f } ∧ f v = .ok v' ∧
+      denote z (.coo s') v' = denseMat z d v ∧
+      s'.rows = d.rows ∧ s'.cols = d.cols ∧ s'.sym = d.sym ∧ s'.ity = ity ∧
+      s'.firstIndex = req.firstIndex.getD 0 ∧ s'.order = .colsAndRows ∧
+      OrderTruthful (.coo s') := by
+  obtain ⟨hrej, _⟩ := denseRejects_false d hlow hsq
+  have hloop := denseCoo_loop d hlow hsq
+  have hnnz := triH_nnz d hlow hsq
+  obtain ⟨v', hv', hget⟩ := denseValues_gather z d hlow hsq Gen.C14.denseCooValuesCopy
+    Gen.C14.denseCooValuesTriangle Gen.C14.denseCooTopRows Gen.C14.denseCooAdvance
+    (by cases d.sym <;> simp [Gen.C14.denseCooValuesCopy, Symmetry.code])
+    (by cases d.sym <;> simp [Gen.C14.denseCooValuesTriangle, Symmetry.code])
+    (fun c => rfl) (fun c => rfl) (colList (triH d.sym d.rows) d.cols).flatten.length v
+  let Δ : Int := req.firstIndex.getD 0
+  have hΔ : Gen.C14.denseCooDelta req.firstIndex.isSome (req.firstIndex.getD 0) = Δ := by
+    cases h : req.firstIndex <;> simp [Gen.C14.denseCooDelta, Δ, h]
+  have hfi : Gen.C14.denseCooFirstIndex req.firstIndex.isSome (req.firstIndex.getD 0) = Δ := by
+    cases h : req.firstIndex <;> simp [Gen.C14.denseCooFirstIndex, Δ, h]
+  have hrow : ∀ r c : Int, Gen.C14.denseCooRowIndex d.sym.code r c Δ = r + Δ := by
+    intro r c; cases hs : d.sym
+    · simp [Gen.C14.denseCooRowIndex, Symmetry.code]
+    · simp [Gen.C14.denseCooRowIndex, Symmetry.code]
+    · exact absurd hs hlow
+  have hcol : ∀ r c : Int, Gen.C14.denseCooColIndex d.sym.code r c Δ = c + Δ := by
+    intro r c; cases hs : d.sym
+    · simp [Gen.C14.denseCooColIndex, Symmetry.code]
+    · simp [Gen.C14.denseCooColIndex, Symmetry.code]
+    · exact absurd hs hlow
+  have hnnz' : ((colList (triH d.sym d.rows) d.cols).flatten.length : Int) =
+      Gen.C14.denseCooNnz d.sym.code d.rows d.cols := by
+    rw [hnnz]; unfold Gen.C14.denseCooNnz
+    cases hs : d.sym
+    · simp [Symmetry.code]
+    · simp [Symmetry.code]
+    · exact absurd hs hlow
+  obtain ⟨s', hs'⟩ : ∃ s' : COO, s' =
+      { rows := d.rows, cols := d.cols, sym := d.sym,
+        rowIdx := (colList (triH d.sym d.rows) d.cols).flatten.map fun p =>
+          Gen.C14.denseCooRowIndex d.sym.code p.1 p.2 Δ,
+        colIdx := (colList (triH d.sym d.rows) d.cols).flatten.map fun p =>
+          Gen.C14.denseCooColIndex d.sym.code p.1 p.2 Δ,
+        order := CooOrder.ofCode Gen.C14.denseCooOrder, firstIndex := Δ, ity := ity } := ⟨_, rfl⟩
+  have hent : cooEntriesSpec s' = some ((colList (triH d.sym d.rows) d.cols).flatten.map castP) := by
+    rw [hs']
+    unfold cooEntriesSpec
+    simp only [List.length_map, if_true, Option.some.injEq, List.map_map, List.zip_map']
+    apply List.map_congr_left
+    intro p _
+    simp [Function.comp, hrow, hcol, castP]
+  refine ⟨s', _, v', ?_, hv', ?_, by rw [hs'], by rw [hs'], by rw [hs'], by rw [hs'], by rw [hs'],
+    by rw [hs']; rfl, ?_⟩
+  · unfold denseToCoo
+    simp only [hrej, hloop, hnnz', hΔ, hfi, ne_eq, not_true_eq_false, if_false, Bool.false_eq_true, hs']
+  · have hd : s'.rows = d.rows ∧ s'.cols = d.cols ∧ s'.sym = d.sym := by rw [hs']; exact ⟨rfl, rfl, rfl⟩
+    simp only [denote, hent, Option.bind_some, hd.1, hd.2.1, hd.2.2]
+    have : triH d.sym d.rows = fun c => if d.sym = .unsym then d.rows else c + 1 := by
+      funext c; rfl
+    rw [this] at hget ⊢
+    exact fromDense_denote z d hlow hsq v v' hget
+  · intro es hes
+    rw [hent] at hes
+    cases hes
+    have : s'.order = .colsAndRows := by rw [hs']; rfl
+    rw [this]
+    exact (castP_sorted (colList_sorted _ _)).1
+
+/-! ### Dense → CSC -/
+
+theorem colList_length (h : Nat → Nat) (cols : Nat) : (colList h cols).length = cols := by
+  simp [colList]
+
+theorem denseToCsc_correct (z : β) (d : Dense) (ity : IdxTy) (v : List β)
+    (hlow : d.sym ≠ .lower) (hsq : d.sym ≠ .unsym → d.rows = d.cols) :
+    ∃ (s' : CSC) (f : List β → Except Err (List β)) (v' : List β),
+      denseToCsc z d ity = .ok { out := .csc s', vals := f } ∧ f v = .ok v' ∧
+      denote z (.csc s') v' = denseMat z d v ∧
+      s'.rows = d.rows ∧ s'.cols = d.cols ∧ s'.sym = d.sym ∧ s'.ity = ity ∧
+      s'.order = .sortedRows ∧ OrderTruthful (.csc s') := by
+  obtain ⟨_, hrej⟩ := denseRejects_false d hlow hsq
+  have hloop := denseCsc_loop d hlow hsq
+  have hnnz := triH_nnz d hlow hsq
+  obtain ⟨v', hv', hget⟩ := denseValues_gather z d hlow hsq Gen.C14.denseCscValuesCopy
+    Gen.C14.denseCscValuesTriangle Gen.C14.denseCscTopRows Gen.C14.denseCscAdvance
+    (by cases d.sym <;> simp [Gen.C14.denseCscValuesCopy, Symmetry.code])
+    (by cases d.sym <;> simp [Gen.C14.denseCscValuesTriangle, Symmetry.code])
+    (fun c => rfl) (fun c => rfl) (colList (triH d.sym d.rows) d.cols).flatten.length v
+  have hinner : ∀ r c : Int, Gen.C14.denseCscInnerIdx d.sym.code r c = r := by
+    intro r c; cases hs : d.sym
+    · simp [Gen.C14.denseCscInnerIdx, Symmetry.code]
+    · simp [Gen.C14.denseCscInnerIdx, Symmetry.code]
+    · exact absurd hs hlow
+  have houter : ∀ l : Int, Gen.C14.denseCscOuterPtr d.sym.code l = l := by
+    intro l; cases hs : d.sym
+    · simp [Gen.C14.denseCscOuterPtr, Symmetry.code]
+    · simp [Gen.C14.denseCscOuterPtr, Symmetry.code]
+    · exact absurd hs hlow
+  have hnnz' : ((colList (triH d.sym d.rows) d.cols).flatten.length : Int) =
+      Gen.C14.denseCscNnz d.sym.code d.rows d.cols := by
+    rw [hnnz]; unfold Gen.C14.denseCscNnz
+    cases hs : d.sym
+    · simp [Symmetry.code]
+    · simp [Symmetry.code]
+    · exact absurd hs hlow
+  obtain ⟨s', hs'⟩ : ∃ s' : CSC, s' =
+      { rows := d.rows, cols := d.cols, sym := d.sym,
+        inner := (colList (triH d.sym d.rows) d.cols).flatten.map fun p =>
+          Gen.C14.denseCscInnerIdx d.sym.code p.1 p.2,
+        outer := (prefixCounts 0 ((colList (triH d.sym d.rows) d.cols).map List.length)).map fun l =>
+          Gen.C14.denseCscOuterPtr d.sym.code l,
+        order := CscOrder.ofCode Gen.C14.denseCscOrder, ity := ity } := ⟨_, rfl⟩
+  have hent : cscEntriesSpec s' = some ((colList (triH d.sym d.rows) d.cols).flatten.map castP) := by
+    rw [hs']
+    unfold cscEntriesSpec
+    have ho : ((prefixCounts 0 ((colList (triH d.sym d.rows) d.cols).map List.length)).map fun l =>
+        Gen.C14.denseCscOuterPtr d.sym.code l) =
+        prefixCounts 0 ((colList (triH d.sym d.rows) d.cols).map List.length) := by
+      conv_rhs => rw [← List.map_id (prefixCounts 0 _)]
+      apply List.map_congr_left; intro l _; simp [houter]
+    have hi : ((colList (triH d.sym d.rows) d.cols).flatten.map fun p =>
+        Gen.C14.denseCscInnerIdx d.sym.code (p.1 : Int) (p.2 : Int)) =
+        (colList (triH d.sym d.rows) d.cols).flatten.map fun p => (p.1 : Int) := by
+      apply List.map_congr_left; intro p _; exact hinner _ _
+    simp only [ho, hi]
+    have hwf : outerWF d.cols (prefixCounts 0 ((colList (triH d.sym d.rows) d.cols).map List.length))
+        ((colList (triH d.sym d.rows) d.cols).flatten.map fun p => (p.1 : Int)).length = true := by
+      rw [outerWF_iff]
+      refine ⟨?_, ?_, ?_, prefixCounts_monotone _ _⟩
+      · rw [prefixCounts_length, List.length_map, colList_length]
+      · obtain ⟨t, ht⟩ := prefixCounts_head 0 ((colList (triH d.sym d.rows) d.cols).map List.length)
+        rw [ht]; rfl
+      · rw [prefixCounts_last, List.length_map, List.length_flatten]; simp
+    rw [if_pos hwf]
+    congr 1
+    exact zip_expand_prefixCounts _ 0 0 (fun k col hk => colList_col hk)
+  refine ⟨s', _, v', ?_, hv', ?_, by rw [hs'], by rw [hs'], by rw [hs'], by rw [hs'],
+    by rw [hs']; rfl, ?_⟩
+  · unfold denseToCsc
+    simp only [hrej, hloop, hnnz', ne_eq, not_true_eq_false, if_false, Bool.false_eq_true, hs']
+  · have hd : s'.rows = d.rows ∧ s'.cols = d.cols ∧ s'.sym = d.sym := by rw [hs']; exact ⟨rfl, rfl, rfl⟩
+    simp only [denote, hent, Option.bind_some, hd.1, hd.2.1, hd.2.2]
+    have : triH d.sym d.rows = fun c => if d.sym = .unsym then d.rows else c + 1 := by
+      funext c; rfl
+    rw [this] at hget ⊢
+    exact fromDense_denote z d hlow hsq v v' hget
+  · intro es hes
+    rw [hent] at hes
+    cases hes
+    have : s'.order = .sortedRows := by rw [hs']; rfl
+    rw [this]
+    exact (castP_sorted (colList_sorted _ _)).2
+
+
+
+
+/-! ### Sparse → sparse -/
+
+theorem expandOuter_ge : ∀ (outer : List Int) (c : Nat), ∀ x ∈ expandOuter c outer, (c : Int) ≤ x := by
+  intro outer
+  induction outer with
+  | nil => intro c x hx; simp [expandOuter] at hx
+  | cons a rest ih =>
+    intro c x hx
+    cases rest with
+    | nil => simp [expandOuter] at hx
+    | cons b rest' =>
+      simp only [expandOuter, List.mem_append, List.mem_replicate] at hx
+      rcases hx with ⟨_, rfl⟩ | hx
+      · exact le_refl _
+      · have := ih (c + 1) x hx
+        push_cast at this; omega
+
+theorem expandOuter_sorted : ∀ (outer : List Int) (c : Nat), (expandOuter c outer).Pairwise (· ≤ ·) := by
+  intro outer
+  induction outer with
+  | nil => intro c; simp [expandOuter]
+  | cons a rest ih =>
+    intro c
+    cases rest with
+    | nil => simp [expandOuter]
+    | cons b rest' =>
+      simp only [expandOuter]
+      rw [List.pairwise_append]
+      refine ⟨?_, ih (c + 1), ?_⟩
+      · rw [List.pairwise_replicate]; right; exact le_refl _
+      · intro x hx y hy
+        rw [List.mem_replicate] at hx
+        have := expandOuter_ge (b :: rest') (c + 1) y hy
+        push_cast at this; omega
+
+/-- Entries of a well-formed compressed-column structure are sorted by column. -/
+theorem csc_cols_sorted {s : CSC} {es : List (Int × Int)} (h : cscEntriesSpec s = some es) :
+    es.Pairwise fun a b => a.2 ≤ b.2 := by
+  unfold cscEntriesSpec at h
+  split at h
+  · rename_i hwf
+    obtain ⟨_, h2, h3, h4⟩ := outerWF_iff.mp hwf
+    simp only [Option.some.injEq] at h
+    subst h
+    have hl : (expandOuter 0 s.outer).length ≤ s.inner.length := by
+      rw [expandOuter_length s.outer 0 0 _ h2 h3 h4]; omega
+    have := expandOuter_sorted s.outer 0
+    rw [← List.map_snd_zip (l₁ := s.inner) hl, List.pairwise_map] at this
+    exact this
+  · cases h
+
+theorem cscToCoo_correct (s : CSC) (ity : IdxTy) (req : Request) {es : List (Int × Int)}
+    (hes : cscEntriesSpec s = some es) :
+    ∃ s' : COO, cscToCoo (β := β) s ity req = .ok { out := .coo s', vals := copyVals } ∧
+      cooEntriesSpec s' = some es ∧
+      s'.rows = s.rows ∧ s'.cols = s.cols ∧ s'.sym = s.sym ∧ s'.ity = ity ∧
+      s'.firstIndex = req.firstIndex.getD 0 ∧
+      s'.order = (if s.order = .sortedRows then .colsAndRows else .colsOnly) ∧
+      (OrderTruthful (.csc s) → OrderTruthful (.coo s')) := by
+  obtain ⟨hwalk, hlen⟩ := cscWalk_of_spec hes
+  let Δ : Int := req.firstIndex.getD 0
+  have hΔ : Gen.C14.cscCooDelta req.firstIndex.isSome (req.firstIndex.getD 0) = Δ := by
+    cases h : req.firstIndex <;> simp [Gen.C14.cscCooDelta, Δ, h]
+  have hfi : Gen.C14.cscCooFirstIndex req.firstIndex.isSome (req.firstIndex.getD 0) = Δ := by
+    cases h : req.firstIndex <;> simp [Gen.C14.cscCooFirstIndex, Δ, h]
+  obtain ⟨s', hs'⟩ : ∃ s' : COO, s' =
+      { rows := s.rows, cols := s.cols, sym := s.sym,
+        rowIdx := es.map fun e => Gen.C14.cscCooRowIndex e.1 e.2 Δ,
+        colIdx := es.map fun e => Gen.C14.cscCooColIndex e.1 e.2 Δ,
+        order := CooOrder.ofCode (Gen.C14.cscCooOrder s.order.code), firstIndex := Δ, ity := ity } :=
+    ⟨_, rfl⟩
+  have hent : cooEntriesSpec s' = some es := by
+    rw [hs']
+    unfold cooEntriesSpec
+    simp only [List.length_map, if_true, Option.some.injEq]
+    exact zip_shift es (fun r c => Gen.C14.cscCooRowIndex r c Δ) (fun r c => Gen.C14.cscCooColIndex r c Δ) Δ
+      (fun r c => by simp [Gen.C14.cscCooRowIndex]) (fun r c => by simp [Gen.C14.cscCooColIndex])
+  have hord : s'.order = (if s.order = .sortedRows then .colsAndRows else .colsOnly) := by
+    rw [hs']; cases s.order <;> simp [Gen.C14.cscCooOrder, CscOrder.code, CooOrder.ofCode]
+  refine ⟨s', ?_, hent, by rw [hs'], by rw [hs'], by rw [hs'], by rw [hs'], by rw [hs'], hord, ?_⟩
+  · unfold cscToCoo
+    simp only [hwalk, hlen, ne_eq, not_true_eq_false, if_false, hΔ, hfi, hs']
+  · intro htr es' hes'
+    rw [hent] at hes'
+    cases hes'
+    have hcols := csc_cols_sorted hes
+    rw [hord]
+    have hsrc := htr es hes
+    cases ho : s.order
+    · simp only [reduceCtorEq, if_false]; exact hcols
+    · rw [ho] at hsrc
+      simp only [if_true]
+      show es.Pairwise colRowLE
+      have : es.Pairwise fun a b => a.2 ≤ b.2 ∧ (a.2 = b.2 → a.1 ≤ b.1) := hcols.and hsrc
+      refine List.Pairwise.imp ?_ this
+      intro a b ⟨h1, h2⟩
+      rcases Int.lt_or_eq_of_le h1 with hlt | heq
+      · exact Or.inl hlt
+      · exact Or.inr ⟨heq, h2 heq⟩
+
+theorem cooToCoo_correct (s : COO) (ity : IdxTy) (req : Request) {cv : Conv β}
+    (h : cooToCoo s ity req = .ok cv) :
+    ∃ s' : COO, cv.out = .coo s' ∧ cv.vals = copyVals ∧
+      cooEntriesSpec s' = cooEntriesSpec s ∧
+      s'.rows = s.rows ∧ s'.cols = s.cols ∧ s'.sym = s.sym ∧ s'.ity = ity ∧
+      s'.firstIndex = req.firstIndex.getD s.firstIndex ∧ s'.order = s.order := by
+  have hΔ : Gen.C14.cooCooDelta req.firstIndex.isSome (req.firstIndex.getD 0) s.firstIndex =
+      (req.firstIndex.getD s.firstIndex) - s.firstIndex := by
+    cases hr : req.firstIndex <;> simp [Gen.C14.cooCooDelta]
+  have hfi : Gen.C14.cooCooFirstIndex req.firstIndex.isSome (req.firstIndex.getD 0) s.firstIndex =
+      req.firstIndex.getD s.firstIndex := by
+    cases hr : req.firstIndex <;> simp [Gen.C14.cooCooFirstIndex]
+  unfold cooToCoo at h
+  dsimp only at h
+  rw [hΔ, hfi] at h
+  generalize hΔ' : req.firstIndex.getD s.firstIndex - s.firstIndex = Δ at h
+  by_cases hreuse : Gen.C14.cooCooReuse (decide (s.ity = ity)) Δ = true
+  · rw [if_pos hreuse] at h
+    simp only [Except.ok.injEq] at h
+    subst h
+    simp only [Gen.C14.cooCooReuse, Bool.and_eq_true, decide_eq_true_eq, beq_iff_eq] at hreuse
+    obtain ⟨hity, hd0⟩ := hreuse
+    refine ⟨s, rfl, rfl, rfl, rfl, rfl, rfl, hity, ?_, rfl⟩
+    omega
+  · rw [if_neg hreuse] at h
+    by_cases hlen : s.rowIdx.length ≠ s.colIdx.length
+    · rw [if_pos hlen] at h; cases h
+    · rw [if_neg hlen] at h
+      simp only [Except.ok.injEq] at h
+      subst h
+      refine ⟨_, rfl, rfl, ?_, rfl, rfl, rfl, rfl, rfl, ?_⟩
+      · have hlen' : s.rowIdx.length = s.colIdx.length := by simpa using hlen
+        unfold cooEntriesSpec
+        simp only [List.length_map, hlen', if_true, Option.some.injEq, List.map_map]
+        congr 1 <;> apply List.map_congr_left <;> intro x _ <;>
+          simp only [Function.comp, Gen.C14.cooCooIndex] <;> omega
+      · cases s.order <;> simp [Gen.C14.cooCooOrder, CooOrder.code, CooOrder.ofCode]
+
+theorem cscToCsc_correct (s : CSC) (ity : IdxTy) (req : Request) {cv : Conv β}
+    (h : cscToCsc s ity req = .ok cv) :
+    ∃ s' : CSC, cv.out = .csc s' ∧ cv.vals = copyVals ∧
+      cscEntriesSpec s' = cscEntriesSpec s ∧
+      s'.rows = s.rows ∧ s'.cols = s.cols ∧ s'.sym = s.sym ∧ s'.ity = ity ∧
+      (req.order = some .sortedRows → s'.order = .sortedRows ∧ s.order = .sortedRows) ∧
+      (req.order ≠ some .sortedRows → s'.order = s.order) := by
+  unfold cscToCsc at h
+  simp only at h
+  split at h
+  · split at h <;> cases h
+  · rename_i hns
+    simp only [Except.ok.injEq] at h
+    subst h
+    refine ⟨_, rfl, rfl, rfl, rfl, rfl, rfl, rfl, ?_, ?_⟩
+    · intro hr
+      simp only [hr, beq_self_eq_true, Bool.true_and, beq_iff_eq, if_true] at hns ⊢
+      refine ⟨trivial, ?_⟩
+      cases ho : s.order
+      · exact absurd ho hns
+      · rfl
+    · intro hr
+      have : (req.order == some CscOrder.sortedRows) = false := by simpa using hr
+      simp [this]
+
+
 end Alpaqa.C14
